@@ -79,6 +79,53 @@ def counter_plain_sum(ctx, sites):
                    ("the counter total is clamped with max(..): cycles with slack (negative counter) make every neighbour look better, the "
                     "transition search never terminates" if cmax else "the violation total is not built from positive parts / old totals"),
                    loc=st.instr.line())
+    scratch_violation_is_a_sum_of_positive_parts(ctx)
+
+
+def scratch_violation_is_a_sum_of_positive_parts(ctx, rid="R2"):
+    """the from-scratch clustering: the violation total adds max(counter of THIS cycle, 0) per cycle; clamping the running total instead
+    lets slack of one cycle pay for the excess of another"""
+    key = TR("one_cluster_per_maintenance")
+    o, fd0 = ctx.require_fn("%s.one_cluster_per_maintenance.violation-sums-positive-parts" % rid, "T12", key,
+                            "the clustering adds max(cycle counter, 0) per cycle to the violation total (the clamped value is the cycle's own counter)")
+    if fd0 is None:
+        return
+    seen, bad = 0, []
+    for k in ctx.prog.family(key):
+        b = ctx.prog.bodies[k]
+        f = ctx.fd(k)
+        if f is None:
+            continue
+        for c in b.calls():
+            if not (c.decl or c.callee or "").endswith("::max") or len(c.args) != 2:
+                continue
+            if c.args[1].place is not None or c.args[1].const_val() != 0:
+                continue
+            seen += 1
+            # the clamped value: a running total lives in the closure environment (captured by reference) or is read back from an accumulator
+            a = c.args[0]
+            d = direct_def_instr(f, a)
+            via_env = False
+            guard = 0
+            while d is not None and d.kind == "assign" and d.rv_kind() == "use" and d.ops and d.ops[0].place is not None and guard < 6:
+                guard += 1
+                pl = d.ops[0].place
+                if b.is_closure and pl.local == 1 and pl.proj:
+                    via_env = True
+                    break
+                ds = [x for x in f.defs.get(pl.local, ()) if x.kind != "param" and x.instr is not None]
+                d = ds[0].instr if len(ds) == 1 else None
+            if a.place is not None and b.is_closure and a.place.local == 1 and a.place.proj:
+                via_env = True
+            if via_env:
+                bad.append(c)
+    if bad:
+        ctx.bad(o, "max(.., 0) at %s clamps an accumulator captured from the enclosing function (the running total), not the counter of the "
+                "cycle at hand: a cycle with slack hides another cycle's violation in the cached total" % bad[0].line(), loc=bad[0].line())
+    elif seen:
+        ctx.ok(o, "%d positive part(s), each of a per-cycle value" % seen)
+    else:
+        ctx.undecided(o, "no max(.., 0) found in the clustering")
 
 
 def three_opt_reconnection(ctx, rid):
